@@ -6,7 +6,7 @@ V = Path(__file__).resolve().parent.parent
 TECH_V = "contract-based deductive verification: Verus on the real function text translated mechanically on every run (V-t)"
 TECH_K = "contract-based deductive verification: Kani/CBMC loop-free harnesses over the full operand domain on real text extracted into a dependency-free crate (K-t)"
 CLAIMS = {
- "C01": ("proof", "Verus proves, for all block lengths and arbitrary child code, the jump/offset/scoping layout contracts of the real IfStatement/ElseStatement/WhileLoop/NumberLoop::compile (translated mechanically each run). The mechanisms the property's anchors name are decided; whole-program semantics is not. Interpreter side (Verus): each control handler (if_stmt, while_loop, jmp, jmp_pop, done, else_stmt, store_skip, load) signals exactly the exit state / reads exactly the variable the layouts assume, and the exit-state step of Function::run moves the instruction pointer and opens / closes frames accordingly; Stack::register_variable_flags / find_name / pop_until_function / get_executing_function_label.", "4.C01", TECH_V,
+ "C01": ("proof", "Verus proves, for all block lengths and arbitrary child code, the jump/offset/scoping layout contracts of the real IfStatement/ElseStatement/WhileLoop/NumberLoop::compile (translated mechanically each run). The mechanisms the property's anchors name are decided; whole-program semantics is not. Interpreter side (Verus): each control handler (if_stmt, while_loop, jmp, jmp_pop, done, else_stmt, store_skip, load) signals exactly the exit state / reads exactly the variable the layouts assume, and the exit-state step of Function::run moves the instruction pointer and opens / closes frames accordingly; Stack::register_variable_flags / find_name / pop_until_function / get_executing_function_label.", "4.C01", TECH_V + "; " + TECH_K,
          "rule table of the translator; children's compile abstract; block lengths < 2^28; Verus/Z3"),
  "C04": ("proof", "Verus proves that the real reader (split_string_v2) and the real writer (CompiledItem::repr, binary form) conform to the codec state machine / escaping spec for all strings, and the round-trip lemma over those contracts; perform_file_io_out leaves the file holding exactly the records whatever the path held before. ", "4.C04", TECH_V,
          "strings as char sequences (UTF-8 layer and file I/O not modelled); std contracts for replace/format/is_whitespace; rule table"),
@@ -16,7 +16,7 @@ CLAIMS = {
          "as C01; depth composition over arbitrary nesting is not mechanised"),
  "C12": ("proof", "Verus proves the real handlers jmp_not_nil / unwrap / unwrap_into (and the Ctx methods they call) against the statement-level contracts of `or`, `get`, `?=`. Primitive::equals (leading match): nil equals only nil, a present optional compares by its payload on either side.", "4.C12", TECH_V,
          "heap pointers abstract; frame write abstract; error texts dropped"),
- "C14": ("proof", "Kani proves the numeric built-in method arms (conversions, abs, float parts) over all receivers on the extracted arm text. Verus proves the string method arms with positions (len, substring, insert, delete, split) and string indexing by characters.", "4.C14", TECH_K,
+ "C14": ("proof", "Kani proves the numeric built-in method arms (conversions, abs, float parts) over all receivers on the extracted arm text. Verus proves the string method arms with positions (len, substring, insert, delete, split) and string indexing by characters.", "4.C14", TECH_K + "; " + TECH_V,
          "K-t extraction of match arms; float parts only kind/totality; string methods not yet covered"),
  "C17": ("proof", "The 'returns Err, never panics' re-reading of every operator and numeric built-in obligation (Kani: no failed Rust panic check in the code under contract; Verus strict mode for * / %). Known finding D9 (integer overflow panics) is reported as such. map / filter bridge visits never index past the list; Display for Stack lists every active frame once, innermost first.", "4.C17", TECH_K + "; " + TECH_V,
          "as C05/C14; trace shape and process exit status not yet covered"),
@@ -26,7 +26,7 @@ CLAIMS = {
 CLAIMS.update({
  "C02": ("proof", "Static operator table vs run time: Kani proves for every (kind, kind, operator) cell of the real get_output_type table that the static result kind is the kind the run-time operator yields and that no cell is accepted on which the run-time operator cannot succeed; the run-time side of each numeric cell is proved by the C05 obligations (also listed here). Verus proves the list arms of eq_complex / PartialEq for ListType (every slot, not some slot) and try_coerce_to_open (every adjacent pair) for all list lengths. Statement-level typing checks of the parser are not yet under contract. Further (Verus): supports_negate, numeric from-bounds, if/else return-path marking, call-argument count and types, FunctionType equality, compound-assignment result type, conditions read through element / field pointers.", "4.C02", TECH_K + "; " + TECH_V,
          "only the native operator table and the run-time operators; soundness as one composed theorem is not decided"),
- "C03": ("proof", "Rejection side of the operator table: every cell on which the run-time operator cannot succeed yields None in the real get_output_type table (Kani, all cells); list compatibility rejects a fixed-shape list with one incompatible slot (Verus); the const/type tests of assignment, modify, loop counter and op-assign reject (Verus, any parse tree). Further (Verus): boolean condition of if / while / assert, call-argument count and types, op-assign / ?= only onto places, constructor needs self, the scope lookup the checks rely on.", "4.C03", TECH_K,
+ "C03": ("proof", "Rejection side of the operator table: every cell on which the run-time operator cannot succeed yields None in the real get_output_type table (Kani, all cells); list compatibility rejects a fixed-shape list with one incompatible slot (Verus); the const/type tests of assignment, modify, loop counter and op-assign reject (Verus, any parse tree). Further (Verus): boolean condition of if / while / assert, call-argument count and types, op-assign / ?= only onto places, constructor needs self, the scope lookup the checks rely on.", "4.C03", TECH_K + "; " + TECH_V,
          "only the operator table; diagnostics' position text and the other fault kinds are not decided yet"),
  "C07": ("proof", "Verus proves that the real make_function handler captures exactly the listed names, each as the same cell the defining scope's lookup (frames first, then its own captures) finds - capture by reference as handle routing. Also: store overwrites the visible variable's own cell (Stack::register_variable_flags), modify writes the captured variable's cell (store_object, update_callback_variable, VariableMapping::update), load resolves own variables, then captures, then the call stack; Expr / Assignment dependencies (capture lists).", "4.C07", TECH_V,
          "cell semantics of the gc crate assumed; frame lookup abstract; composition over call histories not mechanised"),
@@ -46,7 +46,7 @@ CLAIMS.update({
          "gc cell semantics assumed; make_object / call_object / ld_self handle routing not yet under contract"),
  "C10": ("proof", "Verus proves, per write form and for every parse tree/context (pest API and scope lookups abstract): Ident const-flag propagation (wrap_in_callback, clone_with_type, mark_const); the previous declaration handed to the const test is the lookup over all blocks of the function (or the captured scopes for modify); Parser::assignment's const/type test; `+=`-family and `?=` (incl. elements/fields rooted at a const) in Expr::for_type; reuse as a `from` loop counter.", "4.C10", TECH_V,
          "index/field `=` (Parser::reassignment), unpacking, class/import idents are not yet under contract; scope push/pop discipline assumed"),
- "C13": ("proof", "Verus proves the list method arms of BuiltInFunction::run (len, reverse, remove incl. range failure, push, join, index_of, clear, clone) and list equality against the sequence model with sharing made explicit (a handle denotes a heap cell; clone allocates a fresh cell), plus writes through element pointers (HeapPrimitive::set). GcMap insert/get/len/contains_key/clear/remove against the finite-map model; list literal append and map literal insert store values; map / filter on an empty receiver.", "4.C13", TECH_V,
+ "C13": ("proof", "Verus proves the list method arms of BuiltInFunction::run (len, reverse, remove incl. range failure, push, join, index_of, clear, clone) and list equality against the sequence model with sharing made explicit (a handle denotes a heap cell; clone allocates a fresh cell), plus writes through element pointers (HeapPrimitive::set). GcMap insert/get/len/contains_key/clear/remove against the finite-map model; list literal append and map literal insert store values; map / filter on an empty receiver.", "4.C13", TECH_V + "; " + TECH_K,
          "gc/RefCell/std::Vec semantics assumed; map methods, index read, map/filter bridges and composition over operation histories not covered"),
  "C16": ("proof", "Panic-freedom of the parts function contracts can reach: Kani proves the constant folder never panics on literal operands (all operators, kind pairs, values); Verus proves number_from_string, the usize conversion of literals and scopes_since_loop free of panics (every unwrap/expect/unreachable!/slice/subtraction is an obligation). Known finding D25 (empty fixed-shape list index) is reported as such. pest, recursion depth and untranslated AST builders are NOT decided. Parser::function_parameters (self first), Expr::for_type operand shapes for op-assign and ?=.", "4.C16", TECH_K + "; " + TECH_V,
          "claimed only for the listed helper functions; totality over arbitrary source text is not decided"),
